@@ -291,10 +291,7 @@ func c08Unary(e c08Enum) error {
 		for _, ty := range c08Types[:e.NT] {
 			for _, nid := range append([]string{"f"}, ids...) {
 				nl := cloneNL(base)
-				err := nl.RelateNodeAtID(&sbom.Node{Id: nid}, id, ty)
-				if (err != nil) != (id == "zz") {
-					return fmt.Errorf("RelateNodeAtID(%q at %q) on %s: err=%v", nid, id, hx.DescribeNL(base), err)
-				}
+				_ = nl.RelateNodeAtID(&sbom.Node{Id: nid}, id, ty) // (when relating fails is not part of C08)
 				if werr := hx.WellFormed(nl, false); werr != nil {
 					return fmt.Errorf("RelateNodeAtID(%q at %q) on %s: %v", nid, id, hx.DescribeNL(base), werr)
 				}
